@@ -13,6 +13,9 @@ Case payloads (space separated fields):
   `continue_releases` the timing of a Continue is irrelevant, by `observer_only` so is the program.
 * `K <n> <bpops> <trace> <prog-hex>` — `n` threads, each suspension is answered by `StopThreads`.
   Result `released=<n> end=kill|fin`.
+* `L <mode> <bos><boe> <bpops> <script> <trace> <lib-hex> <main-hex>` — library and main program loaded in
+  steps with the debugger attached at the point `<mode>` says; `<trace>` = the visits of the phases in
+  which the debugger is attached. Same result format and the SAME model function as `D`.
 * `S …` — sink programs on several workers: the model's answer is the constant the property
   demands (`same=1 ok=1`); the recorded per-thread traces are validated in mode `vt`.
 
@@ -36,7 +39,8 @@ def list (s : String) (sep : String) : List String :=
 
 def natOf (s : String) : Option Nat := s.toNat?
 
-def loc (n : Nat) : Loc := ⟨0, n⟩
+/-- positions are numbers `<source index> * 1000 + line` (sources: 0 = `t`, 1 = `lib`, 2 = `main`) -/
+def loc (n : Nat) : Loc := ⟨n / 1000, n % 1000⟩
 
 def parseOp (s : String) : Option BpOp :=
   let rest := (s.drop 1).toString
@@ -76,7 +80,7 @@ def flagsOf (s : String) : Bool × Bool :=
   | _ => (false, true)
 
 def showLines (ls : List Loc) : String :=
-  if ls.isEmpty then "-" else ".".intercalate (ls.map fun l => toString l.line)
+  if ls.isEmpty then "-" else ".".intercalate (ls.map fun l => toString (l.src * 1000 + l.line))
 
 def setup (flags bpops : String) : Option Dbg := do
   let (bos, boe) := flagsOf flags
@@ -114,6 +118,10 @@ def runCase (payload : String) : String :=
   match payload.splitOn " " with
   | "D" :: rest => caseD rest
   | "K" :: rest => caseK rest
+  | "L" :: _mode :: flags :: bpops :: script :: trace :: _lib :: [_main] =>
+    -- life-cycle cases: the model is the same function of (visit trace while attached, break
+    -- points, script): nothing about parse time or the attach point enters it
+    caseD ["1", flags, bpops, script, "poll", "0", trace, "-"]
   | "S" :: _ => "same=1 ok=1\tnt=1"
   | _ => "bad-payload"
 
